@@ -24,8 +24,9 @@ const (
 
 // capProbe measures a constant-on-a-cap spike of f around axis: the value on the axis, the background
 // value just outside, and the fraction of the sphere covered by the cap (found by bisection on three
-// meridians, which must agree).  ok=false when there is no isotropic cap (overlapping caps).
-func capProbe(f func(kit.V3) float64, axis kit.V3) (f0, fb, frac float64, ok bool) {
+// meridians, which must agree).  ok=false when there is no isotropic cap (overlapping caps) or when the value
+// inside the cap differs from the value on the axis by more than relTol (relative).
+func capProbe(f func(kit.V3) float64, axis kit.V3, relTol float64) (f0, fb, frac float64, ok bool) {
 	e1, e2 := orthoBasis(axis)
 	at := func(t kit.V3, th float64) float64 {
 		return f(axis.Scale(math.Cos(th)).Add(t.Scale(math.Sin(th))).Unit())
@@ -61,8 +62,12 @@ func capProbe(f func(kit.V3) float64, axis kit.V3) (f0, fb, frac float64, ok boo
 		}
 	}
 	// constant inside (up to the variation of the smooth background)
-	if v := at(e2, 0.5*ths[0]); math.Abs(v-f0) > 1e-9*f0+4*vary+1e-6*fb {
-		return f0, fb, 0, false
+	for _, t := range []kit.V3{e2, e1, e1.Scale(-1), e2.Scale(-1)} {
+		for _, r := range []float64{0.5, 0.98} {
+			if v := at(t, r*ths[0]); math.Abs(v-f0) > relTol*f0+4*vary+1e-6*fb {
+				return f0, fb, 0, false
+			}
+		}
 	}
 	s := math.Sin(ths[0] / 2)
 	return f0, fb, s * s, true
@@ -106,7 +111,7 @@ func analyse(d dist) (an *analysis, skip string, err error) {
 	}
 	// delta lobes: measure their mass from the density itself
 	for _, l := range an.deltas {
-		f0, fb, frac, ok := capProbe(d.density, l.axis)
+		f0, fb, frac, ok := capProbe(d.density, l.axis, 1e-9)
 		if !ok {
 			return an, "delta-lobe-not-isolated", nil
 		}
@@ -140,6 +145,7 @@ func analyse(d dist) (an *analysis, skip string, err error) {
 		for _, l := range an.deltas {
 			q.avoid = append(q.avoid, l.axis)
 		}
+		q.circles = lobeCircles(an.smooth)
 		an.mass, an.errs = an.g.masses(q, cellTol)
 		an.evals = q.evals
 		if q.bad {
@@ -154,6 +160,45 @@ func analyse(d dist) (an *analysis, skip string, err error) {
 		return an, "quadrature-not-converged", nil
 	}
 	return an, "", nil
+}
+
+// labelCuts classifies the configuration of the loci that cut cells of the grid obliquely.
+func (an *analysis) labelCuts(o *kit.Obs) {
+	if !an.hasGrid {
+		return
+	}
+	oblique := 0
+	for _, k := range lobeCircles(an.smooth) {
+		c := k.axis.Dot(an.g.fr.a)
+		if rho := math.Sqrt(math.Max(0, 1-c*c)); rho > 1e-6 {
+			oblique++
+			if beta, gamma := math.Acos(math.Max(-1, math.Min(1, c))), math.Acos(k.kappa); math.Abs(math.Abs(beta-gamma)) < 0.02 || math.Abs(beta+gamma-math.Pi) < 0.02 {
+				o.Label("cut:equator-through-grid-pole")
+			}
+		}
+	}
+	switch {
+	case oblique == 1:
+		o.Label("cut:one-oblique-equator")
+	case oblique > 1:
+		o.Label("cut:several-oblique-equators")
+	}
+}
+
+// lobeCircles lists the loci where a density made of these lobes is not smooth: the equator of a cos^alpha
+// lobe (from alpha = 6 on the lobe is five times differentiable there and practically zero: nothing to split)
+// and the rim of a cone.
+func lobeCircles(ls []lobe) []circle {
+	var out []circle
+	for _, l := range ls {
+		switch {
+		case l.kind == "pow" && l.alpha < 6:
+			out = append(out, circle{axis: l.axis})
+		case l.kind == "cap":
+			out = append(out, circle{axis: l.axis, kappa: l.minCos})
+		}
+	}
+	return out
 }
 
 func describe(ls []lobe) string {
@@ -281,6 +326,7 @@ func checkIntegral(s Subject, o *kit.Obs) error {
 	if len(an.smooth) > 1 {
 		o.Label("lobes:mixture")
 	}
+	an.labelCuts(o)
 	return checkTotal(an, d)
 }
 
@@ -354,6 +400,7 @@ func checkSampler(c statCase, o *kit.Obs) error {
 	if len(an.smooth) > 1 {
 		o.Label("lobes:mixture")
 	}
+	an.labelCuts(o)
 	r := rand.New(rand.NewSource(c.Seed))
 	var obs []int
 	if an.hasGrid {
@@ -401,8 +448,17 @@ func checkSampler(c statCase, o *kit.Obs) error {
 	}
 	res := chiSquare(obs, exp, n, minExpected)
 	if res.pooled < minExpected {
-		if e := poissonExcess(res.poolObs, res.pooled); e > 30 && float64(res.poolObs)-res.pooled > math.Max(10, 5e-4*float64(n)) {
-			return fmt.Errorf("%d samples fall in cells where the reported density predicts %.3g in total; lobes %s", res.poolObs, res.pooled, describe(d.lobes))
+		// the cells too thin for the statistic, taken together: an exact Poisson/binomial tail bound (p < 1e-13)
+		// against the expectation plus everything the quadrature may have missed there, and an effect floor.
+		// (That no sample falls where the density is zero is checked pointwise above, without any quadrature.)
+		upper := res.pooled
+		for i, m := range an.mass {
+			if float64(n)*m < minExpected {
+				upper += float64(n) * 2 * an.errs[i]
+			}
+		}
+		if e := poissonExcess(res.poolObs, upper); e > 30 && float64(res.poolObs)-upper > math.Max(10, 5e-4*float64(n)) {
+			return fmt.Errorf("%d samples fall in the cells where the reported density predicts at most %.3g in total; lobes %s", res.poolObs, upper, describe(d.lobes))
 		}
 	}
 	if res.k > 0 && res.z > zAlarm && res.effect > effectFloor {
